@@ -74,6 +74,13 @@ def hdOut2 (st : Stat) (out : Option (Nat × Nat)) (noout : Bool) : String :=
   | some (a, b) => if st == .ok && !noout then s!"{fmtStat st} out={a} out2={b}" else fmtStat st
   | none => fmtStat st
 
+/-- pair of out-values of which the second may not have been written -/
+def hdOut2o (st : Stat) (o1 o2 : Option Nat) (noout : Bool) : String :=
+  if st == .ok && !noout then
+    let f (o : Option Nat) := match o with | some v => toString v | none => "-"
+    s!"{fmtStat st} out={f o1} out2={f o2}"
+  else fmtStat st
+
 /-- operations on the deque in slot `k` (model `d`, spec `l`) -/
 def stepObj (s : Sess) (c : Cmd) (m : Mem) (k : Nat) (d : Deque) (l : List Nat) : Sess × String × String :=
   let a0 := c.arg 0
@@ -192,9 +199,45 @@ def stepIter (s : Sess) (c : Cmd) (m : Mem) : Sess × String × String :=
     | _, _ => early s m "nosession"
   | _, _ => early s m "nosession"
 
+/-- zip iterator whose two sides are the same deque (`zit_new o=k o2=k`) -/
+def stepZipSelf (s : Sess) (c : Cmd) (m : Mem) (k : Nat) (it : Deque.Iter) (cur : Cur) (d : Deque) (l : List Nat) :
+    Sess × String × String :=
+  let a0 := c.arg 0
+  let a1 := c.arg 1
+  let noout := c.nat "noout" 0 != 0
+  let refused := c.fired > 0
+  let put (d' : Deque) (l' : List Nat) (it' : Deque.Iter) (cur' : Cur) (m' : Mem) : Sess :=
+    setS (setM { s with mem := m', zit := some (k, k, it'), szit := some (k, k, cur') } k (some d')) k (some l')
+  match c.op with
+  | "zit_next" =>
+    let r := Deque.zipNext it d d m
+    let sp := Spec.DequeSpec.zipNextSelf l cur
+    fin (put d l r.2.2.1 sp.2.2 r.2.2.2) (hdOut2 sp.1 sp.2.1 false) (hdOut2 r.1 r.2.1 false)
+  | "zit_add" =>
+    let r := Deque.zipAddSelf it d a0 a1 m
+    let sp := if refused then (Stat.errAlloc, l, cur) else Spec.DequeSpec.zipAddSelf l cur a0 a1
+    fin (put r.2.2.1 sp.2.1 r.2.1 sp.2.2 r.2.2.2) (fmtStat sp.1) (fmtStat r.1)
+  | "zit_remove" =>
+    let r := Deque.zipRemoveSelf it d m
+    let sp := Spec.DequeSpec.zipRemoveSelf l cur
+    fin (put r.2.2.2.2.1 sp.2.2.2.1 r.2.2.2.1 sp.2.2.2.2 r.2.2.2.2.2)
+      (hdOut2o sp.1 sp.2.1 sp.2.2.1 noout) (hdOut2o r.1 r.2.1 r.2.2.1 noout)
+  | "zit_replace" =>
+    let r := Deque.zipReplaceSelf it d a0 a1 m
+    let sp := Spec.DequeSpec.zipReplaceSelf l cur a0 a1
+    fin (put r.2.2.2.1 sp.2.2.2 it cur r.2.2.2.2) (hdOut2o sp.1 sp.2.1 sp.2.2.1 noout) (hdOut2o r.1 r.2.1 r.2.2.1 noout)
+  | "zit_index" =>
+    fin { s with mem := m } s!"st=- out={Deque.decIdx cur.pos}" s!"st=- out={Deque.iterIndex it}"
+  | _ => fin { s with mem := m } "st=- badop" "st=- badop"
+
 def stepZip (s : Sess) (c : Cmd) (m : Mem) : Sess × String × String :=
   match s.zit, s.szit with
   | some (ka, kb, it), some (_, _, cur) =>
+    if ka == kb then
+      match getM s ka, getS s ka with
+      | some d, some l => stepZipSelf s c m ka it cur d l
+      | _, _ => early s m "nosession"
+    else
     match getM s ka, getM s kb, getS s ka, getS s kb with
     | some d1, some d2, some l1, some l2 =>
       let a0 := c.arg 0
@@ -247,7 +290,7 @@ def step (s : Sess) (c : Cmd) : Sess × String × String :=
     fin { mem := m } "st=-" "st=-"
   | "zit_new" =>
     let k2 := c.nat "o2" 1
-    if k2 ≥ nslot ∨ (getM s k).isNone ∨ (getM s k2).isNone ∨ k == k2 then early s m "nosession" else
+    if k2 ≥ nslot ∨ (getM s k).isNone ∨ (getM s k2).isNone then early s m "nosession" else
     fin { s with mem := m, zit := some (k, k2, {}), szit := some (k, k2, {}) } "st=-" "st=-"
   | _ =>
   if c.op.startsWith "zit_" then stepZip s c m
